@@ -104,6 +104,15 @@ def event_kinds(task, tier):
     return kinds
 
 
+def reduced_kinds(task):
+    """Reduced K=2 item alphabet for the three-clip space of the thorough tier."""
+    if task == "clip_multilabel_classification":
+        ts, vs = [[], [0], [1], [0, 1], ["oov", 0]], [[0.0, 0.0], [0.75, 0.0], [0.5, 0.75], [0.75, 0.75], [0.25, 1.0]]
+    else:
+        ts, vs = [[], [0], [1], ["oov"], [0, 1]], [[0.0, 0.0], [0.5, 0.25], [0.25, 0.5], [1.0, 0.0], [0.25, 0.25]]
+    return [[t, v] for t in ts for v in vs]
+
+
 def small_kinds(task, k):
     """Reduced item alphabet for the two-clip sound-event spaces."""
     ts = [[], [0], [k - 1] if k > 1 else ["oov"]]
@@ -121,7 +130,7 @@ def bounds(tier):
     q = tier == "quick"
     return {
         "tasks": list(TASKS), "vocabulary_sizes": [1, 2, 3],
-        "clip_tasks_max_items": {"K1": 3, "K2": 2 if q else 3, "K3": 2},
+        "clip_tasks_max_items": {"K1": 3, "K2": "2 (thorough: + 3 over a reduced 25-kind alphabet)", "K3": 2},
         "sound_event_tasks": "one clip with <= 2 events over the item alphabet (K=2; quick: 6 of the 11 score vectors), two clips over a 9-kind alphabet (K=1,2,3; first clip <= 2 events, second <= 1 quick / <= 2 thorough); detection adds unmatched extra prediction / annotation flags",
         "item_kinds": {t: {str(k): len(item_kinds(t, k, tier)) for k in (1, 2, 3)} for t in TASKS},
         "permutations": "all permutations of the prediction list (n <= 3) + reversed annotation list",
@@ -133,11 +142,16 @@ def blocks(tier):
     out = []
     for task in ("clip_classification", "clip_multilabel_classification"):
         for k in (1, 2, 3):
-            n = {1: 3, 2: 2 if q else 3, 3: 2}[k]
+            n = {1: 3, 2: 2, 3: 2}[k]
             kinds = item_kinds(task, k, tier)
             firsts = list(range(len(kinds)))
-            for c in chunk(firsts, 24):
+            for c in chunk(firsts, 24 if q else 48):
                 out.append({"space": "clips", "task": task, "k": k, "n": n, "tier": tier, "first": c})
+        if not q:
+            # three clips over a reduced two-class alphabet (the full alphabet cubed is ~3e6 cases)
+            rk = reduced_kinds(task)
+            for c in chunk(list(range(len(rk))), 8):
+                out.append({"space": "clips3", "task": task, "k": 2, "n": 3, "tier": tier, "first": c})
     for task in ("sound_event_classification", "sound_event_detection"):
         kinds = event_kinds(task, tier)
         for c in chunk(list(range(len(kinds))), 16):
@@ -152,8 +166,8 @@ def blocks(tier):
 
 def run_block(block, rec):
     sp, task, k = block["space"], block["task"], block["k"]
-    if sp == "clips":
-        kinds = item_kinds(task, k, block["tier"])
+    if sp in ("clips", "clips3"):
+        kinds = item_kinds(task, k, block["tier"]) if sp == "clips" else reduced_kinds(task)
         for f in block["first"]:
             for rest in lists_upto(kinds, block["n"] - 1):
                 rec.add(run_case({"task": task, "k": k, "clips": [[kinds[f]]] + [[r] for r in rest]}))
